@@ -567,6 +567,7 @@ def srvLine (st : SrvSt) (ts : List Tok) : SrvSt :=
       let st := bump st
       (st.monfail "c10" "the server did not answer within the watchdog (hang)").diff "hang" "the implementation hung"
     else if c = "cf.obs" then { st with rs := faultLine st.rs ts }
+    else if c.startsWith "cp." then { st with rs := complianceLine st.rs ts }
     else if c.startsWith "rc." then
       let (rs, rc) := reconLine st.rs st.rc ts
       { st with rs := rs, rc := rc }
